@@ -58,14 +58,14 @@ def prime():
 
 
 @st.composite
-def base_case(draw, tier, data_kind=None, depths=vs.DEPTHS_STREAM, min_chans=1, subrange=True):
+def base_case(draw, tier, data_kind=None, depths=vs.DEPTHS_STREAM, min_chans=1, subrange=True, nonfinite_ok=False):
     mx = 60 if tier == "quick" else 160
     lay = draw(vs.layout(depths=depths, max_samples=mx, min_samples=2, max_files=3, max_chans=16,
                          max_chan_units=2, min_chans=min_chans))
     if data_kind is not None:
         lay["data_kind"] = data_kind
     elif lay["nbits"] == 32:
-        lay["data_kind"] = "f32int"
+        lay["data_kind"] = "f32nonfinite" if nonfinite_ok and draw(st.integers(0, 3)) == 0 else "f32int"
     else:
         lay["data_kind"] = "full"
     n = sum(lay["split"])
@@ -159,7 +159,7 @@ class Setup:
             require(rd.header.nsamples == arr.shape[0], f"{name}:inferred-nsamples", f"{self.ctxt}: {rd.header.nsamples} != {arr.shape[0]}")
             if arr.shape[0]:
                 got = rd.read_block(0, arr.shape[0]).data.T
-                require(np.array_equal(got, arr.astype(np.float32)), f"{name}:library-readback")
+                require(np.array_equal(got, arr.astype(np.float32), equal_nan=True), f"{name}:library-readback", self.ctxt)
         except Violation:
             raise
         except Exception as exc:  # noqa: BLE001
@@ -190,7 +190,7 @@ def check_invert(case, ctx):
 
 @st.composite
 def strat_mask(draw, tier):
-    c = draw(base_case(tier))
+    c = draw(base_case(tier, nonfinite_ok=True))
     nchans = c["layout"]["nchans"]
     c["mask"] = draw(st.lists(st.booleans(), min_size=nchans, max_size=nchans))
     nbits = c["layout"]["nbits"]
@@ -227,7 +227,7 @@ def check_mask(case, ctx):
 
 @st.composite
 def strat_samps(draw, tier):
-    c = draw(base_case(tier))
+    c = draw(base_case(tier, nonfinite_ok=True))
     if c["nsamps"] is None:
         c["nsamps"] = sum(c["layout"]["split"]) - c["start"]
     return c
@@ -292,7 +292,7 @@ def check_chans(case, ctx):
 
 @st.composite
 def strat_bands(draw, tier):
-    c = draw(base_case(tier, min_chans=2))
+    c = draw(base_case(tier, nonfinite_ok=True, min_chans=2))
     nchans = c["layout"]["nchans"]
     nbits = c["layout"]["nbits"]
     unit = vs.chan_unit(nbits)
@@ -474,7 +474,7 @@ def subchecks(tier):
     sh = {"quick": 2, "thorough": 6}
     zdepths = (2, 4, 8, 32)
     return [
-        SubCheck("invert_freq", check_invert, strategy=lambda t: base_case(t), examples=q, shards=sh),
+        SubCheck("invert_freq", check_invert, strategy=lambda t: base_case(t, nonfinite_ok=True), examples=q, shards=sh),
         SubCheck("apply_channel_mask", check_mask, strategy=lambda t: strat_mask(t), examples=q, shards=sh),
         SubCheck("extract_samps", check_samps, strategy=lambda t: strat_samps(t), examples=q, shards=sh),
         SubCheck("extract_chans", check_chans, strategy=lambda t: strat_chans(t), examples=q, shards=sh),
